@@ -91,7 +91,13 @@ func (c *Ctx) c13Values(n int) (lines, impl []string) {
 		// index: every position and one beyond
 		for i := 0; i <= len(s); i++ {
 			var got string
-			if err := try(func() { e, _ := v.Get(goat.Int(i)); got = fmt.Sprint(e.Int()); if e.VerifTag() != tags["uint8"] { got += "!notbyte" } }); err != nil {
+			if err := try(func() {
+				e, _ := v.Get(goat.Int(i))
+				got = fmt.Sprint(e.Int())
+				if e.VerifTag() != tags["uint8"] {
+					got += "!notbyte"
+				}
+			}); err != nil {
 				got = "err"
 			}
 			emit(fmt.Sprintf("str at %s %d", hx(s), i), got)
@@ -241,7 +247,7 @@ func genLiteralBody(r *RNG, quote byte) (string, bool) {
 			sb.WriteString(fmt.Sprintf(`\U%08x`, Pick(r, []int{0x41, 0x1f410, 0x10ffff, 0x10000})))
 		default: // malformed
 			bad = true
-			sb.WriteString(Pick(r, []string{`\q`, `\x1`, `\xg0`, `\u12`, `\ud800`, `\U00110000`, `\400`, `\8`, `\18`, `\`}) )
+			sb.WriteString(Pick(r, []string{`\q`, `\x1`, `\xg0`, `\u12`, `\ud800`, `\U00110000`, `\400`, `\8`, `\18`, `\`}))
 			if quote == '"' {
 				sb.WriteString(Pick(r, []string{`\'`, "z"}))
 			} else {
